@@ -17,9 +17,16 @@ type conf struct {
 	bufs    []int  // one subscriber per entry, with that buffer size
 	timeout bool
 	manager string // "", Unsub0, UnsubAll, Sub, UnsubUnknown, UnsubNil, WithOnly0, Pub2 (a second publisher)
+	// lazy: per subscriber 'f' = its receiver keeps receiving (default), 'n' = nobody receives from
+	// it, '1' = its receiver takes one value and stops. Only used with a timeout: every pair must
+	// then still end in a delivery (into the buffer) or one OnPubTimeout call.
+	lazy string
 }
 
 func (c conf) String() string {
+	if c.lazy != "" {
+		return fmt.Sprintf("%s/subs=%v/receivers=%s/timeout=%v/manager=%s", c.variant, c.bufs, c.lazy, c.timeout, c.manager)
+	}
 	return fmt.Sprintf("%s/subs=%v/timeout=%v/manager=%s", c.variant, c.bufs, c.timeout, c.manager)
 }
 
@@ -43,7 +50,10 @@ func (r *rec) onTimeout(e int) { r.timeouts = append(r.timeouts, e) }
 
 //go:norace
 func (r *rec) receiver(j int) {
-	for {
+	for n := 0; ; n++ {
+		if len(r.c.lazy) > j && r.c.lazy[j] == '1' && n == 1 {
+			return
+		}
 		v, ok := vrt.Recv2(r.subs[j])
 		if !ok {
 			r.closed[j] = true
@@ -137,6 +147,9 @@ func scenario(c conf, bound int) schk.Scenario {
 			s.Spawn("publisher", r.publisher)
 			for j := range r.subs {
 				j := j
+				if len(c.lazy) > j && c.lazy[j] == 'n' {
+					continue
+				}
 				s.Spawn(fmt.Sprint("recv", j), func() { r.receiver(j) })
 			}
 			if c.manager != "" {
@@ -182,6 +195,16 @@ func scenario(c conf, bound int) schk.Scenario {
 			if r.newSub != nil {
 				for len(r.newSub) > 0 {
 					newGot = append(newGot, <-r.newSub)
+				}
+			}
+			if c.lazy != "" {
+				// handed to the channel = delivered: drain what the lazy receivers left in the buffers
+				for j := range r.subs {
+					for len(r.subs[j]) > 0 {
+						if v, ok := <-r.subs[j]; ok {
+							r.got[j] = append(r.got[j], v)
+						}
+					}
 				}
 			}
 			out := fmt.Sprintf("got=%v timeouts=%v new=%v closed=%v errs=%v", r.got, r.timeouts, newGot, r.closed, r.errs)
@@ -315,7 +338,7 @@ func main() {
 					if !r.Thorough() && len(bs) == 2 && (m == "UnsubUnknown" || m == "UnsubNil") {
 						continue
 					}
-					c := conf{v, bs, to, m}
+					c := conf{v, bs, to, m, ""}
 					// delay-bounded: every configuration (many threads: publisher, receivers, manager,
 					// one sender goroutine and one timer per (event, subscriber) pair)
 					d := scenario(c, ev.Pick(r, 2, 4))
@@ -335,6 +358,25 @@ func main() {
 						scs = append(scs, scenario(c, 1))
 					}
 				}
+			}
+		}
+	}
+	// receivers that do not (keep) receive, with a timeout: delivered-xor-timed-out must still hold
+	for _, v := range []string{"Pub", "PubSlice", "PubWait", "PubSliceWait", "PubSync", "PubSliceSync"} {
+		for _, lz := range []struct {
+			bufs []int
+			lazy string
+		}{{[]int{0}, "n"}, {[]int{1}, "n"}, {[]int{1}, "1"}, {[]int{2}, "n"}, {[]int{1, 1}, "nn"}, {[]int{0, 1}, "fn"}, {[]int{1, 0}, "1f"}, {[]int{2, 0}, "nf"}} {
+			if !r.Thorough() && len(lz.bufs) == 2 && strings.Contains(v, "Slice") && v != "PubSliceWait" {
+				continue
+			}
+			c := conf{v, lz.bufs, true, "", lz.lazy}
+			d := scenario(c, ev.Pick(r, 2, 4))
+			d.Name += "/delay-bounded"
+			d.Delay = true
+			scs = append(scs, d)
+			if len(lz.bufs) == 1 {
+				scs = append(scs, scenario(c, ev.Pick(r, 2, 3)))
 			}
 		}
 	}
